@@ -31,6 +31,7 @@ def run_check(pid, tier, repo_root, seed, replay=None, quiet=False, evidence=Tru
     try:
         repo = Repo(repo_root)
         mod.run(ctx, repo)
+        ctx.check_floors()
     except AnalysisError as e:
         print('ANALYSIS-ERROR property=%s %s' % (pid, e))
         try:
